@@ -6,7 +6,10 @@ tie     translator (Gen/Regimes.v = what the code registers now) + exhaustive co
         model: every regime x category x rate key x qualifier context x {start-1, start, start+1, fixed and
         random dates}, through RateDef.Value, tax.TotalCalculator (Combo.prepareRate) and a calculated
         bill.Invoice / Order / Delivery (issue_date and value_date; and with every OTHER date field the
-        document type has set to the far side of the boundary); synthetic tables (tags, extensions, invalid dates).
+        document type has set to the far side of the boundary); the same combos resolved in ANOTHER country's
+        regime (stream foreign: a document of a different regime whose combo names the country, or carries the
+        customer-rates tag with a customer of that country; on a line, a document discount, a document charge);
+        synthetic tables (tags, extensions, invalid dates).
 P       (python, from the published data/regimes/*.json, independent of the model) Go's percentage and
         surcharge are those of the applicable value with the latest start date on or before the date, of the
         rate whose key is the combo's key or the FIRST `+` component of it (no such rate: invalid-rate).
@@ -209,8 +212,10 @@ def gen_table_cases(c, regs, quick):
     """every registered regime x category x rate x context x date -> list of dicts"""
     cases = []
     rng = c.rng
+    countries = sorted({r["country"] for r in regs.values()})
     for f, r in sorted(regs.items()):
         cc = r["country"]
+        hosts = [h for h in countries if h != cc]
         for cat in r.get("categories", []):
             for rt in cat.get("rates", []):
                 vals = rt.get("values", [])
@@ -238,6 +243,31 @@ def gen_table_cases(c, regs, quick):
                             for kind in (0, 3, 5):
                                 cases.append(dict(stream="tables-decoys", op="invoice", kind=kind, cc=cc, cat=cat["code"], key=rt["key"],
                                                   d=d, tags=tags, ext=ext, boundary=d in starts, decoys=others))
+                # the same combo resolved in a FOREIGN regime: the document belongs to another registered regime
+                # (drawn per case), the combo to this one - by `country` on the combo (via 1) or by the customer-rates
+                # tag and a customer of this country (via 2) - on a line, a document discount or a document charge
+                # (where 0/1/2), in an invoice / order / delivery dated by issue_date / value_date; and through
+                # tax.TotalCalculator with Combo.Country set. The table, the boundary and the error before the first
+                # value are those of the combo's country, whatever document it stands in.
+                if hosts:
+                    fdates = []
+                    for s in starts:
+                        fdates += [shift(s, -1), s, shift(s, 1)]
+                    fdates = sorted(set(fdates + FIXED_DATES))
+                    for tags, ext in contexts_of(vals):
+                        for d in fdates:
+                            edge = bool(starts) and d in (starts[0], shift(starts[0], -1))   # first value of the table / the day before it
+                            cases.append(dict(stream="foreign", op="prepare", kind=None, cc=cc, cat=cat["code"], key=rt["key"], d=d,
+                                              tags=tags, ext=ext, boundary=d in starts, host=rng.choice(hosts), via=1, where=0))
+                            for via in (1, 2):
+                                combos = [(k, 0) for k in range(6)] + [(k, wh) for k in range(6) for wh in (1, 2)]
+                                if not (edge or d == (1900, 1, 1)):
+                                    k0 = rng.randrange(6)
+                                    combos = [(k0, 0), ((k0 + 3) % 6, 0), (rng.randrange(6), 1), (rng.randrange(6), 2)]
+                                for kind, wh in combos:
+                                    cases.append(dict(stream="foreign", op="invoice", kind=kind, cc=cc, cat=cat["code"], key=rt["key"], d=d,
+                                                      tags=tags + ("customer-rates",) if via == 2 else tags, ext=ext, boundary=d in starts,
+                                                      host=rng.choice(hosts), via=via, where=wh))
                 # the same documents with EVERY other date they can carry (operation, despatch, receive, delivery,
                 # period, due, advance, reference dates ...: whatever date fields the Go type has) set to a date on
                 # the other side of the boundary: the tax date is the value date or the issue date, nothing else
@@ -346,7 +376,7 @@ def p_expect(pub, case, go_ext=None, strict=False):
         return ("err", "norate" if case["op"] == "lookup" else "invalid-rate")
     ext = dict(case["ext"])
     if case["op"] != "lookup":
-        if rt.get("ext"):
+        if rt.get("ext") and not case.get("host"):     # Combo.prepareRate copies the rate's extensions to local combos only
             ext.update(rt["ext"])
         if go_ext is not None:
             ext = go_ext
@@ -382,6 +412,17 @@ def go_ext_of(case, n):
 
 
 def line_of(case, mode, for_go=False):
+    if case.get("host"):
+        # foreign stream. Model: what ONE combo of country cc receives on the date (the document around it is Go's
+        # business; for via 2 the customer-rates tag is among the tags). Go: the host document, see harness/c12.go
+        if not for_go:
+            return case_line(case["op"], mode, case["cc"], case["cat"], case["key"], case["d"], case["tags"], case["ext"],
+                             None if case["kind"] is None else case["kind"] % 2)
+        if case["op"] == "prepare":
+            return case_line("prepare", mode, case["cc"], case["cat"], case["key"], case["d"], case["tags"], case["ext"]) + " " + w(case["host"])
+        gtags = tuple(t for t in case["tags"] if not (case["via"] == 2 and t == "customer-rates"))   # the harness adds the tag itself
+        return (case_line("foreign", mode, case["cc"], case["cat"], case["key"], case["d"], gtags, case["ext"], case["kind"])
+                + " %s %d %d" % (w(case["host"]), case["via"], case["where"]))
     l = case_line(case["op"], mode, case["cc"], case["cat"], case["key"], case["d"], case["tags"], case["ext"], case["kind"])
     if for_go and (case.get("decoys") or case.get("other")):
         # further rows of the same document in other contexts (Go only: the model states what ONE combo receives)
@@ -399,6 +440,13 @@ def describe(case):
     ctx = ""
     if case["tags"] or case["ext"]:
         ctx = " tags=%s ext=%s" % (list(case["tags"]), case["ext"])
+    if case.get("host"):
+        if case["op"] == "prepare":
+            how += " of country %s with Combo.Country = %s" % (case["host"], case["cc"])
+        else:
+            how += " of a %s document, the combo on %s, belonging to %s by %s" % (
+                case["host"], ["a line", "a document discount", "a document charge"][case["where"]], case["cc"],
+                "`country` on the combo" if case["via"] == 1 else "the customer-rates tag and a customer with tax_id country " + case["cc"])
     return "%s %s %s on %04d-%02d-%02d%s through %s" % (case["cc"], case["cat"], case["key"], *case["d"], ctx, how)
 
 
@@ -493,9 +541,13 @@ def run(c):
         if x["op"] == "invoice":       # compare percent/surcharge/rate key; the ext is an input of P
             cut = lambda n: n if n[0] == "err" else ((n[0][0], n[0][1], n[0][2], n[0][4]),)
             cg, c1, c0 = cut(ng), cut(n1), cut(n0)
+        elif x.get("host"):            # foreign prepare: verdict, retained, percent, surcharge (extensions are the host's business)
+            cut = lambda n: n if n[0] == "err" else (n[0][:4],)
+            cg, c1, c0 = cut(ng), cut(n1), cut(n0)
         else:
             cg, c1, c0 = ng, n1, n0
-        c.count(x["stream"] + ":" + x["op"], 1, (l + (" other %d-%d-%d" % x["other"] if x.get("other") else "")) if x["boundary"] else None)
+        ckey = line_of(x, 1, for_go=True) if x.get("host") else l
+        c.count(x["stream"] + ":" + x["op"], 1, (ckey + (" other %d-%d-%d" % x["other"] if x.get("other") else "")) if x["boundary"] else None)
         ngo_eq_shipped += cg == c0
         og = observed(x, ng)
         exp = p_expect(pub, x, go_ext_of(x, ng))
@@ -519,7 +571,11 @@ def run(c):
                 ", ".join(fields) if fields else "op_date / despatch_date / receive_date, delivery, periods, due dates, references ...",
                 *x["other"], "issue date" if x["kind"] % 2 == 0 else "value date")
         gl = line_of(x, 1, for_go=True)
+        if x.get("host") and exp == ("err", "invalid-date") and not p_ok and og[0] != "err":
+            what += "; no value of the %s table is in force on that date: the clause asks for an error rather than a guess%s" % (
+                x["cc"], " (123.45% / 67.8% are the percentages the input itself carried)" if og == (SENT_P, SENT_S) else "")
         rep = {"case": l, "go_case": gl, "decoy_rows": x.get("decoys"), "case_fields": {k: x[k] for k in ("op", "kind", "cc", "cat", "key", "d", "tags", "ext")},
+               "foreign": {k: x[k] for k in ("host", "via", "where")} if x.get("host") else None,
                "other_dates": list(x["other"]) if x.get("other") else None,
                "implementation": g, "model_after_fix": a, "model_as_shipped": b,
                "published_table_says": sorted(map(str, exp)) if isinstance(exp, set) else exp,
@@ -533,7 +589,7 @@ def run(c):
         c.report(what, rep, finding_id=FINDING)
     seen = set()
     for what, rep in viol:
-        k = (rep["case_fields"]["cc"], rep["case_fields"]["cat"], rep["case_fields"]["key"], rep["case_fields"]["op"])
+        k = (rep["case_fields"]["cc"], rep["case_fields"]["cat"], rep["case_fields"]["key"], rep["case_fields"]["op"], bool(rep.get("foreign")))
         if k in seen:
             continue
         seen.add(k)
@@ -580,7 +636,12 @@ def run(c):
                      "value_date}; plus (tables-otherdates) invoice, order and delivery by issue_date / value_date on every start date "
                      "and the day before it, with EVERY other date field of the document type (found by walking the Go type: op_date, "
                      "despatch_date, receive_date, delivery, periods, due dates, advances, references ...) set to the day on the other "
-                     "side of the boundary, a date before every table and random far dates; plus extended rate keys (defined first component + suffixes), keys whose "
+                     "side of the boundary, a date before every table and random far dates; plus (foreign) every rate x context x "
+                     "{start-1, start, start+1, fixed dates} resolved in ANOTHER country's regime: a document of a different registered "
+                     "regime (drawn per case) whose combo names the country (`country`) or that carries the customer-rates tag with a "
+                     "customer of that country, the combo on a line / document discount / document charge, invoice / order / delivery by "
+                     "issue_date / value_date (all 36 combinations on the first start date, the day before it and 1900-01-01; 8 drawn "
+                     "ones elsewhere), and tax.TotalCalculator with Combo.Country set; plus extended rate keys (defined first component + suffixes), keys whose "
                      "first component is not a rate of the category (`zz-extra+standard`, `bogus+standard+x`, `eqs+standard+eqs`), "
                      "unknown rate keys and unknown categories; plus random "
                      "synthetic tables (tags, extension filters, absent and invalid start dates), the validator's order test and "
